@@ -165,10 +165,17 @@ def generate_schedules(sysd, gen, seed, workdir, timeout=600):
     """Behaviours of the specification as schedules (TLC -simulate, one JSON line per behaviour)."""
     consts = open(os.path.join(ROOT, sysd["dir"], gen["consts"])).read() + kf_consts(sysd, False)
     cfg = os.path.join(workdir, "gen-%s.cfg" % gen["consts"].replace(".consts", ""))
-    write_cfg(cfg, gen.get("spec", "Spec"), consts, invariants=[gen.get("emit", "EmitSchedule")])
+    bfs = gen.get("mode") == "bfs"
     module = os.path.join(ROOT, sysd["dir"], gen["module"] + ".tla")
-    extra = ["-simulate", "num=%d" % gen["num"], "-depth", str(gen["depth"]), "-seed", str(seed)]
-    rc, out, dt = tlc(module, cfg, workdir, workers=1, extra=extra, timeout=timeout, heap="4g")
+    if bfs:
+        # sampled breadth-first generation: one schedule (the BFS path) per sampled distinct state
+        consts = re.sub(r"SampleK = \d+", "SampleK = %d" % gen["sample"], consts)
+        write_cfg(cfg, gen.get("spec", "Spec"), consts, invariants=["EmitSampled"], view=gen.get("view", "View"))
+        rc, out, dt = tlc(module, cfg, workdir, workers=4, extra=["-seed", str(seed)], timeout=timeout, heap="6g")
+    else:
+        write_cfg(cfg, gen.get("spec", "Spec"), consts, invariants=[gen.get("emit", "EmitSchedule")])
+        extra = ["-simulate", "num=%d" % gen["num"], "-depth", str(gen["depth"]), "-seed", str(seed)]
+        rc, out, dt = tlc(module, cfg, workdir, workers=1, extra=extra, timeout=timeout, heap="4g")
     scheds, seen = [], set()
     for line in out.splitlines():
         if line.startswith('<<"SCHED"'):
@@ -176,7 +183,7 @@ def generate_schedules(sysd, gen, seed, workdir, timeout=600):
             if not m:
                 continue
             s = json.loads(json.loads(m.group(1)))
-            key = json.dumps(s.get("steps", [])[:-1], sort_keys=True) + json.dumps(s.get("cfg"), sort_keys=True)
+            key = json.dumps(s.get("steps", [])[:None if bfs else -1], sort_keys=True) + json.dumps(s.get("cfg"), sort_keys=True)
             if key in seen:
                 continue
             seen.add(key)
